@@ -3,6 +3,7 @@
 //   read F | readws F | append F | appendws F
 //   states id:S,id:S  S in C I N D  (ChangeState on the MgrNode)
 //   dump F            per-instance dump: "@@I id state name\n<STEPwrite>@@E\n"
+//   dumpattrs F       every attribute object of every instance with its own value (asStr)
 //   write F | writews F
 //   fresh             discard session (new Registry/InstMgr/STEPfile)
 //   clear | purge     empty the instance manager of the SAME session (ClearInstances / DeleteInstances): in-place reload
@@ -86,6 +87,22 @@ int main( int argc, char ** argv ) {
                 o << "@@E\n";
             }
             printf( "OP dump n=%d\n", n );
+        } else if( op == "dumpattrs" ) {
+            // one line per attribute object of every instance (inherited, own and re-declaring ones): "@@A id index name value"
+            std::ofstream o( argv[++i] );
+            int n = s->im->InstanceCount();
+            for( int k = 0; k < n; k++ ) {
+                MgrNode * mn = s->im->GetMgrNode( k );
+                SDAI_Application_instance * se = mn->GetApplication_instance();
+                int na = se->attributes.list_length();
+                for( int a = 0; a < na; a++ ) {
+                    STEPattribute * at = &se->attributes[a];
+                    std::string v = at->asStr();
+                    for( size_t q = 0; q < v.size(); q++ ) if( v[q] == '\n' ) v[q] = ' ';
+                    o << "@@A " << mn->GetFileId() << " " << a << " " << at->Name() << " " << ( at->IsDerived() ? "*" : v.c_str() ) << "\n";
+                }
+            }
+            printf( "OP dumpattrs n=%d\n", n );
         } else {
             fprintf( stderr, "p21mon: unknown op %s\n", op.c_str() );
             return 64;
